@@ -5,7 +5,7 @@ Engine X obligations (real spil code, configuration VF_CONF, CrossHair).
 from __future__ import annotations
 
 from xhair import env
-from xhair.obl_util import fail, envint
+from xhair.obl_util import fail, envint, envstr
 
 env.setup()
 
@@ -15,7 +15,8 @@ from oracles import typing_ref  # noqa: E402
 typing_ref.templates()
 
 N = envint("VF_N", 4)          # max length of the symbolic string
-NMIN = envint("VF_NMIN", 0)    # min length (partitions)
+NMIN = envint("VF_NMIN", 0)
+PRE = envstr("VF_PRE", "")   # concrete prefix: the string under test is PRE + t    # min length (partitions)
 TYPE_NAMES = list(conf.sid_templates.keys()) + ["bogus", ""]
 TI = envint("VF_TI", 0)        # index into TYPE_NAMES for the uri family
 
@@ -50,36 +51,39 @@ def _check_against_oracle(sid, s: str, exp_type: str, exp_fields) -> bool:
     return True
 
 
-def total(s: str) -> bool:
+def total(t: str) -> bool:
     """
     Sid(s) never raises, for every string (any characters, ':' and '?' included).
-    pre: NMIN <= len(s) <= N
+    pre: NMIN <= len(t) <= N
     post: _
     """
+    s = PRE + t
     sid = Sid(s)
     return isinstance(sid, Sid)
 
 
-def oracle(s: str) -> bool:
+def oracle(t: str) -> bool:
     """
     Plain strings (no '?' and no ':'): type, fields, string, bool, len as the reference typer says.
-    pre: NMIN <= len(s) <= N
-    pre: '?' not in s and ':' not in s
+    pre: NMIN <= len(t) <= N
+    pre: '?' not in t and ':' not in t
     post: _
     """
+    s = PRE + t
     sid = Sid(s)
     exp_type, exp_fields = typing_ref.type_string(s)
     return _check_against_oracle(sid, s, exp_type, exp_fields)
 
 
-def uri(s: str) -> bool:
+def uri(t: str) -> bool:
     """
     'type:string' forces that one template.  One obligation per type name (VF_TI).
     The string of the resulting Sid is the part after the prefix (reading rule, DESIGN section 3).
-    pre: NMIN <= len(s) <= N
-    pre: '?' not in s and ':' not in s
+    pre: NMIN <= len(t) <= N
+    pre: '?' not in t and ':' not in t
     post: _
     """
+    s = PRE + t
     t = TYPE_NAMES[TI]
     sid = Sid(t + ":" + s)
     if t == "":
@@ -89,25 +93,27 @@ def uri(s: str) -> bool:
     return _check_against_oracle(sid, s, exp_type, exp_fields)
 
 
-def colons(s: str) -> bool:
+def colons(t: str) -> bool:
     """
     Any number of ':' never raises; an unaccepted string is untyped, falsy, with no fields.
-    pre: NMIN <= len(s) <= N
-    pre: '?' not in s
+    pre: NMIN <= len(t) <= N
+    pre: '?' not in t
     post: _
     """
+    s = PRE + t
     sid = Sid(s)
     if not sid.type:
         return sid.fields == {} and len(sid) == 0 and not bool(sid)
     return len(sid.fields) > 0 and bool(sid)
 
 
-def reach_typed(s: str) -> bool:
+def reach_typed(t: str) -> bool:
     """
     Reachability twin: must be REFUTED (a typed Sid with >= 3 fields is reachable inside the bound).
-    pre: NMIN <= len(s) <= N
-    pre: '?' not in s and ':' not in s
+    pre: NMIN <= len(t) <= N
+    pre: '?' not in t and ':' not in t
     post: _
     """
+    s = PRE + t
     sid = Sid(s)
     return not (sid.type != "" and len(sid) >= 3)
